@@ -5,8 +5,7 @@ import FP.Model.Enc.KFD
 -/
 namespace FP
 
-theorem dag_width_demands (inp : FlowInput) (e : Edge) (he : e ∈ inp.st.g.edges)
-    (hne : inp.activeEdges ≠ []) :
+theorem dag_width_demands (inp : FlowInput) (e : Edge) (he : e ∈ inp.st.g.edges) :
     lookupD (dagWidthDemands inp.st (inp.st.sourceSinkEdges ++ inp.ignore)) e 0
       = if e ∈ inp.activeEdges then 1 else 0 := by
   have hwf : dagWeightFunction inp.st.g (inp.st.sourceSinkEdges ++ inp.ignore)
@@ -16,13 +15,8 @@ theorem dag_width_demands (inp : FlowInput) (e : Edge) (he : e ∈ inp.st.g.edge
     apply List.filter_congr
     intro x _
     simp [List.contains_eq_mem]
-  have hnonempty : (dagWeightFunction inp.st.g (inp.st.sourceSinkEdges ++ inp.ignore)).isEmpty = false := by
-    rw [hwf]
-    cases hact : inp.activeEdges with
-    | nil => exact absurd hact hne
-    | cons _ _ => rfl
   unfold dagWidthDemands antichainDemands
-  simp only [hnonempty, Bool.false_eq_true, if_false]
+  simp only []
   unfold lookupD
   rw [hwf]
   have hl : ∀ (l : List Edge) (x : Edge),
